@@ -112,6 +112,26 @@ def exercise(sh, facade, kind, combo, block_kind, keyp):
                 out.append((n, None, None))
         return out
 
+    # a client is watching: observers of every callable kind (a plain function, a bound method, a
+    # functools.partial, an object with __call__) are registered before anything is rendered
+    import functools
+
+    def _obs(*a, **k):
+        pass
+
+    class _CallableObserver:
+        def __call__(self, *a, **k):
+            pass
+
+    for _, o in objs:
+        w_ = getattr(o, "watch", None)
+        if callable(w_):
+            for ob in (_obs, functools.partial(_obs, 1), _CallableObserver(), sh.count):
+                try:
+                    w_(ob)
+                    sh.count("client_observers_registered_before_rendering")
+                except Exception:
+                    pass
     inv0 = inventory()
     for cname, o in objs:
         for name, thunk in read_members(o):
